@@ -151,6 +151,13 @@ class Metacommand:
         insn_operands = insn.operands
         code_block = None
 
+        if not self.takes_code_block and insn_operands and isinstance(insn_operands[-1], CodeBlock):
+            reports.error(
+                "wrong-meta-operands",
+                (insn_operands[-1].ctx_start, insn_operands[-1].ctx_end, f"Metacommand '{insn.name.name}' does not take a code block")
+            )
+            raise reports.RecoverableError("Unexpected code block")
+
         if self.takes_code_block:
             if insn_operands and isinstance(insn_operands[-1], CodeBlock):
                 code_block = insn_operands[-1]
